@@ -14,6 +14,8 @@ def generate(lem):
   fake.qual = "lemma:" + lem.name
   fake.total = False
   fake.total_props = set()
+  fake.on_call = {}
+  fake.on_assign = {}
   eng.cur = fake
   eng.cur_loops = None
   obs = []
@@ -33,9 +35,12 @@ def generate(lem):
       setup(st)
       if case is not None:
         st.assume(eng.truthy(st, eng.ev(ast.parse(case, mode="eval").body, st)))
+      tag = f"/case{ci}:{case}" if case is not None else ""
+      st.spec_depth -= 1
+      eng.process_hints(st, lem.proof, {}, f"lemma:{lem.name}{tag}/proof", 0)
+      st.spec_depth += 1
       for cl in lem.concl:
         g = eng.truthy(st, eng.ev(cl.node, st))
-        tag = f"/case{ci}:{case}" if case is not None else ""
         eng.emit(st, "lemma", f"lemma:{lem.name}{tag}:{cl.text}", g, clause=cl.text)
     if lem.cases:
       st = E.State([])
